@@ -347,3 +347,50 @@ Proof.
   inversion Hf as [|? ? ? ? Hhead _]; subst.
   apply (Hhead i ma vp Hget). unfold cmd_spec. rewrite Hfa. exact Hvp.
 Qed.
+
+(** [stored_reading] unfolded for the five parsers of round 4 (definitional) *)
+Lemma stored_reading_wide_spec s :
+  (stored_reading Cmd.VPBoolish s <->
+   utf8_valid s = true /\
+   exists b : bool, (exists l, In l (BPP.literals b) /\ BPP.ascii_ci_eq s l) /\
+                    typed_value Cmd.VPBoolish s = Some (TVal (VP.TVBool b))) /\
+  (stored_reading Cmd.VPFalsey s <->
+   utf8_valid s = true /\
+   exists b : bool, (b = false <-> s = [] \/ exists l, In l BT.false_literals /\ BPP.ascii_ci_eq s l) /\
+                    typed_value Cmd.VPFalsey s = Some (TVal (VP.TVBool b))) /\
+  (stored_reading Cmd.VPNonEmpty s <->
+   s <> [] /\ utf8_valid s = true /\ typed_value Cmd.VPNonEmpty s = Some (TVal (VP.TVStr s))) /\
+  (forall ic pvs,
+   stored_reading (Cmd.VPPossible ic pvs) s <->
+   utf8_valid s = true /\
+   (exists pv h n, In (pv, h) pvs /\ In n (PV.name_and_aliases pv) /\ PVP.name_eq clap_unicode ic n s) /\
+   typed_value (Cmd.VPPossible ic pvs) s = Some (TVal (VP.TVStr s))) /\
+  (forall t lo hi,
+   stored_reading (Cmd.VPRanged t lo hi) s <->
+   (utf8_valid s = true /\ IPP.decimal (ranged_signed t) s /\
+    (lo <= IPP.intval s <= hi)%Z /\ (VB.ity_min t <= IPP.intval s <= VB.ity_max t)%Z) /\
+   typed_value (Cmd.VPRanged t lo hi) s = Some (TVal (VP.TVInt (IPP.intval s)))).
+Proof.
+  split; [split; intros H; exact H|]. split; [split; intros H; exact H|]. split; [split; intros H; exact H|].
+  split; [intros ic pvs; split; intros H; exact H|intros t lo hi; split; intros H; exact H].
+Qed.
+
+(** the [ignore_case] a possible-value parser works with is the argument's own flag ([pv_coherent]: what
+    the spec reader establishes for every argument it builds) *)
+Theorem stored_possible_arg c l i m a ic pvs :
+  typed_entries c l -> In (i, m) l -> find_arg c i = Some a ->
+  a_vp a = Some (Cmd.VPPossible ic pvs) -> pv_coherent a = true ->
+  Forall (Forall (fun s => utf8_valid s = true /\
+                           exists pv h n, In (pv, h) pvs /\ In n (PV.name_and_aliases pv) /\
+                                          PVP.name_eq clap_unicode (a_ignore_case a) n s)) (m_raw m).
+Proof.
+  intros HT Hin Hf Hvp Hc. unfold pv_coherent in Hc. rewrite Hvp in Hc. apply Bool.eqb_prop in Hc. subst ic.
+  pose proof (stored_possible c l HT i m a Hin Hf _ _ Hvp) as H.
+  eapply Forall_impl; [|exact H]. intros g Hg. eapply Forall_impl; [|exact Hg].
+  intros s (U & D & _). split; assumption.
+Qed.
+
+Lemma read_lv_spec sp l :
+  read_lv sp l <->
+  (forall i ma vp, fm_get i l = Some ma -> sp i = Some vp -> Forall (Forall (stored_reading vp)) (m_raw ma)).
+Proof. split; intros H; exact H. Qed.
